@@ -305,6 +305,7 @@ func runC05(t *core.Tape, st *core.Stats) *core.Violation {
 		}
 
 		t.Logf("delivery %d: %s -> %q", d, desc, delivered)
+		st.State(core.HashString(string(delivered)))
 
 		method := []string{"POST", "PATCH", "POST", "GET"}[t.Draw(4)]
 		dl := drawDelivery(t)
